@@ -330,13 +330,28 @@ def desc_sexp(d, schema):
         nm = d.name
         return f'(s {IDS["scalar"].get(nm, "?" + str(nm))})'
     if isinstance(d, S.ShapeDesc):
-        return desc_sexp(d.type, schema) if d.type is not None else '?shape'
+        if d.type is None:       # an ephemeral free-object shape carries no type reference
+            return f'(obj {IDS["objtype"].get("std::FreeObject", "?")})'
+        return desc_sexp(d.type, schema)
     if isinstance(d, S.ObjectDesc):
-        return f'(obj {IDS["objtype"].get(d.name, "?" + str(d.name))})'
+        return f'(obj {_obj_id(d.name, schema)})'
     if isinstance(d, S.CompoundDesc):
-        ids = sorted(IDS['objtype'].get(c.name, -1) for c in d.components)
+        ids = sorted(_obj_id(c.name, schema) if isinstance(c, S.ObjectDesc) else -2 for c in d.components)
         return '(union ' + ' '.join(map(str, ids)) + ')'
     return f'?{type(d).__name__}'
+
+
+def _obj_id(name, schema):
+    """object type name in a descriptor -> model id; an ephemeral view type (shape) is reported under
+    its own derived name: it denotes its material type"""
+    if name in IDS['objtype']:
+        return IDS['objtype'][name]
+    try:
+        t = schema.get(name)
+        m = t.material_type(schema)[1]
+        return IDS['objtype'].get(str(m.get_name(schema)), '?' + str(name))
+    except Exception:      # noqa
+        return '?' + str(name)
 
 
 def monitor_descriptor(ir):
@@ -348,7 +363,7 @@ def monitor_descriptor(ir):
     got = desc_sexp(d, ir.schema)
     want = ty_sexp(ir.stype, ir.schema)
     if got != want:
-        return [f'desc-mismatch[{got}]']
+        return [f'desc-mismatch[{got}<>{want}]'.replace(' ', '_')]
     if d.tid != tid:
         return ['desc-mismatch[type-id]']
     return []
@@ -410,14 +425,19 @@ def value_conforms(v, t, schema, M, db):
         return None
     if isinstance(t, s_types.Tuple):
         sts = list(t.iter_subtypes(schema))
-        if t.is_named(schema):
-            if not isinstance(v, dict) or list(v.keys()) != [n for n, _ in sts]:
+        # the toy evaluator applies no implicit casts: a named-tuple value (dict) may stand where an
+        # unnamed tuple type was inferred and vice versa (both implicit casts exist, positionally);
+        # a named value in a named type must carry the same names
+        if isinstance(v, dict):
+            if t.is_named(schema) and list(v.keys()) != [n for n, _ in sts]:
                 return False
             vals = list(v.values())
-        else:
-            if not isinstance(v, tuple) or len(v) != len(sts):
-                return False
+        elif isinstance(v, tuple):
             vals = list(v)
+        else:
+            return False
+        if len(vals) != len(sts):
+            return False
         res = True
         for x, (_, st) in zip(vals, sts):
             r = value_conforms(x, st, schema, M, db)
@@ -447,6 +467,9 @@ def value_conforms(v, t, schema, M, db):
         if dyn is None:
             return None
         schema, mt = t.material_type(schema)
+        u = mt.get_union_of(schema)
+        if u:       # components of a union may be ephemeral view types: compare with what they are views of
+            return any(dyn.issubclass(schema, c.material_type(schema)[1]) for c in u.objects(schema))
         return dyn.issubclass(schema, mt)
     return None
 
@@ -661,7 +684,8 @@ def main():
             if line[0] == 'Q':
                 text = bytes.fromhex(line[2:]).decode()
                 r, bad = do_T(text)
-                out.append(r + '\t' + text.replace('\n', ' ').replace('\t', ' ') + '\t' + ' '.join('!' + b for b in bad))
+                out.append(r + '\t' + text.replace('\n', ' ').replace('\t', ' ') + '\t'
+                           + ' '.join('!' + b.replace(' ', '_') for b in bad))
                 continue
             cmd, rest = split_ext(line)
             items = parse_sexps(rest)
@@ -672,7 +696,7 @@ def main():
                     r2, _ = do_T(text, with_monitors=False)
                     if r2.split(' #')[0] != r.split(' #')[0]:
                         bad.append('nondeterministic')
-                out.append(r + '\t' + text + '\t' + ' '.join('!' + b for b in bad))
+                out.append(r + '\t' + text + '\t' + ' '.join('!' + b.replace(' ', '_') for b in bad))
             else:
                 out.append(do_pair(cmd, items[0], items[1]))
         except Exception as e:     # noqa  - harness-side failure, reported as such
